@@ -743,9 +743,15 @@ func c10DiscRun(seed uint64, fail bool) (string, error) {
 			mid++
 			req.SetMessageID(int32(mid))
 			req.SetType(message.NonConfirmable)
+			// three ways not to get the datagram out: an IPv6 destination on the AF_INET socket (unicast branch), a
+			// datagram above the UDP limit to a unicast address (unicast branch) or to a multicast group (WriteMulticast
+			// branch; only where the host has an interface on which such a write is attempted and refused)
 			address := "[::1]:5683"
-			if rng.Chance(40) {
+			if k := rng.Intn(10); k >= 4 {
 				address = socks[0].LocalAddr().String()
+				if k >= 7 && c10OversizeMulticastFails() {
+					address = "224.0.1.187:5683"
+				}
 				req.SetBody(bytes.NewReader(make([]byte, 65600+rng.Intn(800))))
 			}
 			done := make(chan error, 1)
@@ -887,6 +893,28 @@ func c10DiscRun(seed uint64, fail bool) (string, error) {
 		}
 	}
 	return fmt.Sprintf("DiscRun %s (Some (IPhost %d)) [%s]", coqAddr(lst), ipNum(net.IPv4(127, 0, 0, 1)), strings.Join(steps, ";\n    ")), nil
+}
+
+var c10McastProbe struct {
+	once  sync.Once
+	fails bool
+}
+
+// c10OversizeMulticastFails: does WriteMulticast of a datagram above the UDP limit return an error on this host?
+// (It does wherever a multicast-capable interface is up; on a host without one nothing is written and nothing fails.)
+func c10OversizeMulticastFails() bool {
+	c10McastProbe.once.Do(func() {
+		l, err := coapNet.NewListenUDP("udp4", "127.0.0.1:0")
+		if err != nil {
+			return
+		}
+		defer l.Close()
+		ctx, cancel := context.WithTimeout(context.Background(), 2*time.Second)
+		defer cancel()
+		err = l.WriteMulticast(ctx, &net.UDPAddr{IP: net.IPv4(224, 0, 1, 187), Port: 5683}, make([]byte, 66000))
+		c10McastProbe.fails = err != nil
+	})
+	return c10McastProbe.fails
 }
 
 func sortStrings(a []string) {
